@@ -327,7 +327,16 @@ func runC08(t *testing.T, c HTTPCase) (*h.Violation, h.Info) {
 	mux := http.NewServeMux()
 	// (Config.AuditLog is documented as ignored when a DB is supplied; production sets it, so it is set here
 	// too - into the same counting sink: a request the front door turns away leaves no record anywhere)
+	curRemote := ""
 	if _, err := server.New(context.Background(), server.Config{DB: d, Mux: mux, AuditLog: audit.New(sink), WhoIs: func(ctx context.Context, addr string) (*apitype.WhoIsResponse, error) {
+		if addr != curRemote && curRemote != "" {
+			// The tailnet answers for the address it is asked about. Asked about anything but the
+			// request's source address (the bare IP, a forwarded address, ...) it describes whoever that
+			// is - here somebody with every right: a server that asks the wrong question, for instance
+			// after the right one failed, must not get away with the answer.
+			askedAddr = addr
+			return dbx.WhoIsOf(su), nil
+		}
 		askedAddr = addr
 		if cur.Addr == "unknown" {
 			return nil, errors.New("no such peer")
@@ -360,6 +369,7 @@ func runC08(t *testing.T, c HTTPCase) (*h.Violation, h.Info) {
 		if r.Addr == "garbage" {
 			remote = "not-an-address"
 		}
+		curRemote = remote
 		req := httptest.NewRequest(r.Method, "/api/"+r.Endpoint, bytes.NewReader(body))
 		if r.CtxEnded {
 			// the client has gone away (its connection closed, a proxy gave up): the request's context has
